@@ -118,7 +118,7 @@ var boolOps = map[string]bool{"and": true, "or": true, "not": true, "=>": true, 
 var intOps = map[string]bool{"+": true, "-": true, "*": true, "div": true, "mod": true, "tdiv": true, "trem": true, "min2": true, "max2": true, "absI": true,
 	"ceilDiv": true, "chopTrunc": true, "chopRound": true, "chopRoundP": true, "decMul": true, "decMulTrunc": true, "decQuo": true, "decQuoTrunc": true,
 	"decCeil": true, "decTruncInt": true, "addDays": true, "DecParse": true, "listN": true, "listPos": true, "ilistN": true, "ilistKey": true, "ilistPos": true,
-	"escId": true, "escRole": true, "sprint2a": true, "sprintIIa": true, "sprintIIb": true, "sprintIinv": true, "unixNano": true, "strlen": true}
+	"escId": true, "idxOf": true, "escRole": true, "sprint2a": true, "sprintIIa": true, "sprintIIb": true, "sprintIinv": true, "unixNano": true, "strlen": true}
 var strOps = map[string]bool{"strcat": true, "strOf": true, "DecString": true, "sprint2": true, "sprintII": true, "sprintI": true, "sprint2b": true, "boolName": true}
 var addrOps = map[string]bool{"addrOf": true, "sellEsc": true, "payEsc": true, "vestEsc": true, "listKey": true}
 
